@@ -21,17 +21,19 @@ Inductive action :=
 | AFeedErr
 | AClose
 | ACancel (c : nat)
-| ASetQid (n : N).                      (* test hook VerifSetNextQid: forces the wire-id counter *)
+| ASetQid (n : N)
+| AExpire.                              (* the armed read deadline expires: Read fails with a timeout *)                      (* test hook VerifSetNextQid: forces the wire-id counter *)
 
 (** What the harness saw. [o_code]: AReserve: 0 admitted, 1 refused (full),
     2 refused (closed); AStart: wire id + 1 of the query written, 0 if the call
-    returned instead. [o_ret]: calls that returned during this action, ascending,
+    returned instead; AExpire: which deadline was armed, 1 idle, 2 waiting-reply. [o_ret]: calls that returned during this action, ascending,
     as (call, kind, a, b): kind 0 = reply (tag a, id b), kind 1 = error class a. *)
 Record obs := mkObs { o_code : N; o_ret : list (nat * N * N * N) }.
 
 Inductive case :=
 | CTdc (maxcq : N) (tcp : bool) (nq0 : N) (script : list (action * obs))
-       (fin_reserved fin_queued : N) (fin_closed : bool) (fin_blocked : list nat).
+       (fin_reserved fin_queued : N) (fin_closed : bool) (fin_blocked : list nat)
+       (fin_arms : list N).   (* every SetReadDeadline call, oldest first: 1 idle timeout, 2 waiting-reply timeout *)
 
 Definition err_code (e : err) : N :=
   match e with EClosed => 1 | ECtx => 2 | EWrite => 3 | ERead => 4 | ETooMany => 5 end.
@@ -101,6 +103,9 @@ Definition exec_action (s : st) (held : list nat) (a : action) (o : obs) : optio
     | None => None
     end
   | ACancel c => match step s (LCtx c) with Some s1 => Some (s1, held, true) | None => None end
+  | AExpire =>
+    let k := match arms s with ArmWaiting :: _ => 2 | _ => 1 end in
+    match step s LRecvErr with Some s1 => Some (s1, held, o_code o =? k) | None => None end
   | ASetQid n =>
     Some (mkSt (closed s) (close_err s) (queue s) (wrap16 n) (reserved s) (qlen s) (max_cq s) (is_tcp s)
                (calls s) (live s) (hold s) (htarget s) (reader_dead s) (waiting_resp s) (arms s), held, true)
@@ -201,11 +206,12 @@ Definition started (s : st) (c : nat) : bool :=
 
 Definition agree (c : case) : bool :=
   match c with
-  | CTdc maxcq tcp nq0 script fr fq fc fb =>
+  | CTdc maxcq tcp nq0 script fr fq fc fb fa =>
     match exec_script (init maxcq tcp nq0) [] script with
     | Some (s, ok) =>
       ok && (reserved s =? fr) && (qlen s =? fq) && Bool.eqb (closed s) fc
       && list_eqb Nat.eqb (sort_nat (filter (started s) (live s))) (sort_nat fb)
+      && list_eqb N.eqb (map (fun a => match a with ArmIdle => 1 | ArmWaiting => 2 end) (rev (arms s))) fa
     | None => false
     end
   end.
@@ -235,7 +241,7 @@ Fixpoint tags_for (c : nat) (sc : list (action * obs)) : list N :=
 (** C01: every reply a call returned was produced for that call, id restored. *)
 Definition spec_c01 (cs : case) : bool :=
   match cs with
-  | CTdc _ _ _ script _ _ _ _ =>
+  | CTdc _ _ _ script _ _ _ _ _ =>
     forallb (fun ao =>
       forallb (fun x =>
         let '(c, k, a, b) := x in
@@ -314,7 +320,7 @@ Fixpoint in_write_at_end (w : list nat) (sc : list (action * obs)) : list nat :=
 
 Definition spec_c02 (cs : case) : bool :=
   match cs with
-  | CTdc _ _ _ script _ _ _ fb =>
+  | CTdc _ _ _ script _ _ _ fb _ =>
     c02_walk script (mkTrk [] [] []) script
     && forallb (fun c => negb (mem_nat c (owed_calls script [] [] [] script))
                          || mem_nat c (held_at_end [] script) || mem_nat c (in_write_at_end [] script)) fb
@@ -346,14 +352,66 @@ Fixpoint c09_walk (maxcq : N) (adm : list nat) (closed_seen : bool) (sc : list (
 
 Definition spec_c09 (cs : case) : bool :=
   match cs with
-  | CTdc maxcq _ _ script fr fq _ _ =>
+  | CTdc maxcq _ _ script fr fq _ _ _ =>
     let '(ok, adm) := c09_walk maxcq [] false script in
     ok && (fr + fq =? N.of_nat (length adm))
   end.
 
+(** C07 (connection level), from the script and the observations alone:
+    - a call whose context ended, or whose connection was closed by any means
+      (peer EOF / read error / deadline expiry, write error, Close), has
+      returned — with an error or a reply — by the end of the script unless
+      the harness itself still holds it (gated Write / parked before its wait);
+    - once the connection is closed, later reservations are refused as closed;
+    - when the read deadline expires while a query is written and unanswered,
+      the deadline that was armed is the waiting-reply one (so silence is
+      detected within that timeout, not the idle timeout). *)
+Record trk7 := mkTrk7 { k_inflight : list nat; k_waiting : list nat; k_cancelled : list nat; k_closed : bool; k_replied : list nat }.
+
+Fixpoint c07_walk (strict : bool) (tk : trk7) (sc : list (action * obs)) : bool * trk7 :=
+  match sc with
+  | [] => (true, tk)
+  | (a, o) :: t =>
+    let ok_a :=
+      match a with
+      | AReserve _ _ => if k_closed tk then o_code o =? 2 else negb (o_code o =? 2)
+      | AExpire => match k_waiting tk with [] => true | _ => negb strict || (o_code o =? 2) end
+      | _ => true
+      end in
+    let tk1 :=
+      match a with
+      | AStart c => if o_code o =? 0 then tk else mkTrk7 (c :: k_inflight tk) (k_waiting tk) (k_cancelled tk) (k_closed tk) (k_replied tk)
+      | AWriteEnd c true _ => mkTrk7 (k_inflight tk) (if mem_nat c (k_replied tk) then k_waiting tk else c :: k_waiting tk) (k_cancelled tk) (k_closed tk) (k_replied tk)
+      | AWriteEnd c false _ => mkTrk7 (k_inflight tk) (k_waiting tk) (k_cancelled tk) true (k_replied tk)
+      | ACancel c => mkTrk7 (k_inflight tk) (k_waiting tk) (c :: k_cancelled tk) (k_closed tk) (k_replied tk)
+      | AFeedErr | AClose | AExpire => mkTrk7 (k_inflight tk) (k_waiting tk) (k_cancelled tk) true (k_replied tk)
+      | AFeed (FReply c _) => mkTrk7 (k_inflight tk) (remove_nat c (k_waiting tk)) (k_cancelled tk) (k_closed tk) (if mem_nat c (k_inflight tk) then c :: k_replied tk else k_replied tk)
+      | _ => tk
+      end in
+    let gone c := match ret_of c o with Some _ => false | None => true end in
+    let tk2 := mkTrk7 (filter gone (k_inflight tk1)) (filter gone (k_waiting tk1)) (k_cancelled tk1) (k_closed tk1) (k_replied tk1) in
+    let '(ok_t, tkf) := c07_walk strict tk2 t in
+    (ok_a && ok_t, tkf)
+  end.
+
+Definition spec_c07_gen (strict : bool) (cs : case) : bool :=
+  match cs with
+  | CTdc _ _ _ script _ _ _ fb _ =>
+    let '(ok, tk) := c07_walk strict (mkTrk7 [] [] [] false []) script in
+    ok && forallb (fun c =>
+            mem_nat c (held_at_end [] script) || mem_nat c (in_write_at_end [] script)
+            || negb (k_closed tk || mem_nat c (k_cancelled tk))) fb
+  end.
+
+Definition spec_c07 := spec_c07_gen true.
+(** The same without the clause that finding F10 violates (which deadline was
+    armed when silence is detected); used to make sure a case downgraded to a
+    KNOWN-FINDING fails for that reason only. *)
+Definition spec_c07_relaxed := spec_c07_gen false.
+
 (** Non-triviality. *)
 Definition script_actions (cs : case) : list action :=
-  match cs with CTdc _ _ _ script _ _ _ _ => map fst script end.
+  match cs with CTdc _ _ _ script _ _ _ _ _ => map fst script end.
 
 Definition count_act (f : action -> bool) (cs : case) : nat := length (filter f (script_actions cs)).
 
@@ -368,7 +426,11 @@ Definition nontrivial_c02 (cs : case) : bool :=
 
 Definition nontrivial_c09 (cs : case) : bool :=
   match cs with
-  | CTdc maxcq _ _ script _ _ _ _ =>
+  | CTdc maxcq _ _ script _ _ _ _ _ =>
     existsb (fun ao => match fst ao with AReserve _ _ => negb (o_code (snd ao) =? 0) | _ => false end) script
     || (N.to_nat maxcq <=? count_act (fun a => match a with AReserve _ _ => true | _ => false end) cs)%nat
   end.
+
+Definition nontrivial_c07 (cs : case) : bool :=
+  (1 <=? count_act (fun a => match a with AFeedErr | AClose | AExpire | ACancel _ | AWriteEnd _ false _ => true | _ => false end) cs)%nat
+  && (1 <=? count_act (fun a => match a with AWriteEnd _ true _ => true | _ => false end) cs)%nat.
